@@ -658,10 +658,14 @@ class TenSym(PySym):
             raise Unsupported("unary %s" % src(n))
         if isinstance(n, ast.BinOp):
             return self.binop(n.op, self.ex(n.left), self.ex(n.right), n)
-        if isinstance(n, ast.Tuple):
-            return tuple(self.ex(e) for e in n.elts)
-        if isinstance(n, ast.List):
-            return [self.ex(e) for e in n.elts]
+        if isinstance(n, (ast.Tuple, ast.List)):
+            items_ = []
+            for e in n.elts:
+                if isinstance(e, ast.Starred):
+                    items_.extend(self.iterate(self.ex(e.value)))
+                else:
+                    items_.append(self.ex(e))
+            return tuple(items_) if isinstance(n, ast.Tuple) else items_
         if isinstance(n, ast.Subscript):
             base = self.ex(n.value)
             if isinstance(base, (list, tuple)):
@@ -1039,8 +1043,37 @@ class TenSym(PySym):
                     return dict(recv)
                 args_ = [self.ex(a) for a in n.args]
                 return recv.get(self.pyval(args_[0]), args_[1] if len(args_) > 1 else None)
-            if isinstance(recv, str) and m in ("lower", "upper"):
-                return getattr(recv, m)()
+            if isinstance(recv, str) and m in ("lower", "upper", "strip", "lstrip", "rstrip", "startswith", "endswith", "split", "join"):
+                args_ = [self.pyval(self.ex(a)) for a in n.args]
+                if all(isinstance(a, (str, int, tuple, list)) for a in args_) and not any(isinstance(x, (Rat, Ten, Obj)) for a in args_ if isinstance(a, (list, tuple)) for x in a):
+                    return getattr(recv, m)(*args_)
+            if isinstance(recv, str) and m == "format":
+                # "..{:9.3f}..".format(a, b): the template's literal pieces and the values formatted into it, in order
+                args_ = self.call_args(n)
+                kw_ = {k.arg: self.ex(k.value) for k in n.keywords if k.arg}
+                import string as _string
+                parts, auto = [], 0
+                for lit, field, spec, conv in _string.Formatter().parse(recv):
+                    if lit:
+                        parts.append(lit)
+                    if field is None:
+                        continue
+                    if field == "":
+                        key_, auto = auto, auto + 1
+                    elif field.isdigit():
+                        key_ = int(field)
+                    else:
+                        key_ = field
+                    if isinstance(key_, int):
+                        if key_ >= len(args_):
+                            raise Raised("the analysed path raises: IndexError (format field %d of %d arguments)" % (key_, len(args_)), "IndexError('format')")
+                        val_ = args_[key_]
+                    else:
+                        if key_ not in kw_:
+                            raise Unsupported("format field %r" % key_)
+                        val_ = kw_[key_]
+                    parts.append(FVal(val_, spec or "", conv))
+                return FStr(parts)
             raise Unsupported("method call %s" % src(n)[:50])
         # ---- classes given by their source
         if cn in self.classes and cn not in self.models:
@@ -1341,6 +1374,18 @@ class TenSym(PySym):
         if cn == "slice":
             vs = [self.ex(a) for a in n.args]
             return slice(*[None if v is None else self.concrete(v) for v in vs])
+        if cn == "str" and len(n.args) == 1:
+            v_ = self.pyval(A(0))
+            if isinstance(v_, str):
+                return v_
+            if isinstance(v_, (int, bool, type(None))):
+                return str(v_)
+            if isinstance(v_, Fraction) and v_.denominator == 1:
+                return str(int(v_))
+            raise Unsupported("str() of %s" % type(v_).__name__)
+        if cn in ("list", "tuple") and len(n.args) == 1:
+            items_ = self.iterate(A(0))
+            return list(items_) if cn == "list" else tuple(items_)
         if cn in ("int", "np.ceil", "np.floor", "math.ceil", "math.floor"):
             v = self.lift(A(0))
             if isinstance(v, int):
